@@ -27,6 +27,7 @@ GROUP = dict(
            _c.unit_of('builder', 'stub.builder'),
            _c.PURL_SHAPE,
            dict(id='theory.build', kind='raw', text=_c.theory_text('build.rs')),
+           dict(id='theory.parse_phase', kind='raw', text=_c.theory_text('parse_phase.rs')),
            dict(id='theory.parse', kind='raw', text=_c.theory_text('parse.rs')),
            _c.unit_of('parse_seg', 'U-dec.decode'),
            _c.contract_only('parse_seg', 'U-sub.decode_subpath'),
